@@ -545,6 +545,21 @@ def _join(stmts):
     return "\n".join(s.text for s in stmts) + "\n"
 
 
+def _screen_one(job):
+    try:
+        return impl.assemble(*job[0], **job[1])
+    except BaseException as ex:      # harness-level failure: treated as "do not use this program"
+        return {"outcome": "harness-error", "error": type(ex).__name__}
+
+
+def screen_map(jobs):
+    """impl.assemble (with its own watchdog) over a pool, WITHOUT impl.pmap's re-confirmation of watchdog
+    hits: the screen only wants to know whether a program is quick"""
+    import multiprocessing as mp
+    with mp.get_context("fork").Pool(C.NPROC) as pool:
+        return pool.map(_screen_one, jobs, chunksize=4)
+
+
 def rich_family(rep, rng, n_progs):
     prof_multi = proggen.Profile(n_files=(2, 3), n_stmts=(3, 12), link="maybe")
     prof_one = proggen.Profile(n_files=(1, 2), n_stmts=(4, 14), link="maybe")
@@ -561,7 +576,7 @@ def rich_family(rep, rng, n_progs):
     for i in range(n_progs):
         progs.append([proggen.gen_program(rng, prof_multi), proggen.gen_program(rng, prof_one), proggen.gen_program(rng, prof_cut)])
     flatp = [p for tr in progs for p in tr]
-    pre = impl.pmap("assemble", [((p.files,), {"fs": p.fs, "watchdog": 4}) for p in flatp])
+    pre = screen_map([((p.files,), {"fs": p.fs, "watchdog": 4}) for p in flatp])
     slow = {id(p) for p, o in zip(flatp, pre) if o["outcome"] in ("hang", "harness-error")}
     if slow:
         rep.count("rich:dropped-slow-program", len(slow))
@@ -645,9 +660,21 @@ def rich_family(rep, rng, n_progs):
         else:
             jobs.append(((fa,), {"fs": fs}))
             jobs.append(((fb,), {"fs": fs}))
-    outs = settle(jobs, impl.pmap("assemble", jobs))
+    outs = impl.pmap("assemble", jobs)
+    # a variant can be slow although its base program passed the screen (thousands of address-dependent
+    # statements before the base is known): at most two such pairs are re-run alone with a long watchdog,
+    # the others are dropped and counted -- speed is not this property's subject
+    reruns = 0
     for i, ((fa, fb, fs), m) in enumerate(zip(pairs, meta)):
         a, b = outs[2 * i], outs[2 * i + 1]
+        if ("hang" in (a["outcome"], b["outcome"]) or "harness-error" in (a["outcome"], b["outcome"])
+                or a.get("first_attempt_hit_watchdog") or b.get("first_attempt_hit_watchdog")):
+            if reruns >= 2:
+                rep.count("rich:dropped-slow-pair")
+                continue
+            reruns += 1
+            a = impl.assemble(*jobs[2 * i][0], **jobs[2 * i][1], watchdog=60)
+            b = impl.assemble(*jobs[2 * i + 1][0], **jobs[2 * i + 1][1], watchdog=60)
         if view(a) != view(b):
             a = impl.assemble(*jobs[2 * i][0], **jobs[2 * i][1], watchdog=60)
             b = impl.assemble(*jobs[2 * i + 1][0], **jobs[2 * i + 1][1], watchdog=60)
